@@ -45,8 +45,12 @@ def _case(draw):
         k = draw(st.sampled_from(KINDS))
         terms.append(dict(kind=k, scale=draw(st.sampled_from(SCALES)), seed=draw(st.integers(0, 2 ** 31 - 1)),
                           FL=draw(gen.limiter_names)))
+    # 'late': the boundary conditions are edited AFTER the variable exists (all sides, or one side only), so the solve has
+    # to notice the edit and rebuild its cached boundary system
+    late = draw(st.sampled_from(['none', 'none', 'all', 'one', 'one']))
     return dict(grid=g, bc=bc, init=draw(gen.cell_interior(d)), terms=terms, ext=draw(st.booleans()),
-                lin_seed=draw(st.integers(0, 2 ** 31 - 1)))
+                lin_seed=draw(st.integers(0, 2 ** 31 - 1)), late=late,
+                late_side=[draw(st.integers(0, len(d) - 1)), draw(st.sampled_from(['lo', 'hi']))], presolve=draw(st.booleans()))
 
 
 def strategy(tier):
@@ -62,7 +66,7 @@ def classify(case):
     d = dims_of(g['faces'])
     kinds = sorted({t['kind'] for t in case['terms']})
     return dict(grid=g['name'], N="x".join(map(str, d)), nterms=len(case['terms']), nkinds=len(kinds),
-                neg=any(t['scale'] != 1.0 for t in case['terms']), ext=case['ext'])
+                neg=any(t['scale'] != 1.0 for t in case['terms']), ext=case['ext'], late=case.get('late', 'none'))
 
 
 def _nondefault_bc(bc):
@@ -176,11 +180,40 @@ def check(case):
     d = dims_of(g['faces'])
     nd = len(d)
     n = int(np.prod(full_shape(d)))
-    P = dict(name=name, faces=g['faces'], bc=case['bc'], init=case['init'])
-    m, BC, phi = problem.build_var(P)
+    late = case.get('late', 'none')
+    bc_final = case['bc']
+    if late == 'none':
+        P = dict(name=name, faces=g['faces'], bc=case['bc'], init=case['init'])
+        m, BC, phi = problem.build_var(P)
+    else:
+        from ..common import SIDES, default_bc_spec
+        m = make_grid(name, g['faces'])
+        phi = pf.CellVariable(m, np.array(case['init'], float))
+        if case.get('presolve'):
+            pf.solvePDE(phi, [pf.linearSourceTerm(pf.CellVariable(m, 1.0)), pf.constantSourceTerm(pf.CellVariable(m, np.array(case['init'], float)))])
+        if late == 'all':
+            from ..common import apply_bc
+            apply_bc(phi.BCs, case['bc'])
+        else:
+            ax, side = case['late_side']
+            bc_final = default_bc_spec(d)
+            for e in bc_final:
+                for sd in ('lo', 'hi'):
+                    e[sd]['kind'] = 'N'
+            bc_final[ax][side] = dict(case['bc'][ax][side])
+            bf = getattr(phi.BCs, SIDES[ax][0 if side == 'lo' else 1])
+            for k in 'abc':
+                arr = getattr(bf, k)
+                arr[:] = np.array(case['bc'][ax][side][k], float).reshape(arr.shape)
+        P = dict(name=name, faces=g['faces'], bc=bc_final, init=np.asarray(phi.value, float).tolist())
     geo = oracle.Geometry(name, g['faces'])
     terms, contribs = [], []
-    for t in case['terms']:
+    term_specs = case['terms']
+    if late != 'none':
+        # a TVD vector built from a variable whose BCs were just edited would use its not-yet-updated ghost cells (the
+        # caller's business, see apply_BCs docs); keep the term list a function of the visible state
+        term_specs = [dict(t, kind='constsrc') if t['kind'] == 'tvd' else t for t in case['terms']]
+    for t in term_specs:
         obj, Mi, vi = _build_term(m, d, phi, t)
         terms.append(obj)
         contribs.append((Mi, vi))
@@ -236,7 +269,7 @@ def check(case):
     rsc = rsc + 1e-3 * rsc.max() + 1e-300      # rows whose own terms are ~0 are measured on the system's scale
     res.expect_small("row-residual", float(np.max(np.abs(r) / rsc)), 1e-10, f"row-residual:{name}",
                      f"solver output does not satisfy (sum of matrix terms) phi = (sum of vector terms) row by row on {name}")
-    ref = oracle.ghost_reference(geo, np.asarray(phi.value), case['bc'])
+    ref = oracle.ghost_reference(geo, np.asarray(phi.value), bc_final)
     cnt = np.zeros(full.shape, int)
     for ax in range(nd):
         gh = np.zeros(full.shape[ax], bool)
@@ -252,14 +285,17 @@ def check(case):
     alt = pf.solveMatrixPDE(m, Mstar, vstar)
     res.expect_small("solveMatrixPDE", float(np.abs(np.asarray(alt.value) - np.asarray(phi.value)).max() / sc), 1e-11,
                      f"solveMatrixPDE:{name}", f"solvePDE != solveMatrixPDE on the hand-assembled system on {name}")
-    # (vii) cached boundary term unchanged
+    # (vii) cached boundary term: untouched by the accumulation, and (after a late BC edit) rebuilt to the current BCs
     after = phi._BCsTerm
-    if abs(after[0] - cached_before[0]).sum() != 0 or not np.array_equal(after[1], cached_before[1]):
+    if late == 'none' and (abs(after[0] - cached_before[0]).sum() != 0 or not np.array_equal(after[1], cached_before[1])):
         res.fail(f"cached-bcterm:{name}", f"solvePDE changed the variable's cached boundary term on {name}")
+    if abs(after[0] - Mbc).sum() != 0 or not np.array_equal(after[1], vbc):
+        res.fail(f"cached-bcterm-current:{name}", f"after solvePDE the variable's cached boundary term is not the one its current boundary "
+                 f"conditions give on {name} (BCs edited after construction: {late})")
     # default solver path gives the same numbers
     if not case['ext']:
         m2, BC2, ph2 = problem.build_var(P)
-        terms2 = [_build_term(m2, d, ph2, t)[0] for t in case['terms']] + [pf.linearSourceTerm(pf.CellVariable(m2, beta))]
+        terms2 = [_build_term(m2, d, ph2, t)[0] for t in term_specs] + [pf.linearSourceTerm(pf.CellVariable(m2, beta))]
         pf.solvePDE(ph2, terms2)
         res.expect_small("default-solver", float(np.abs(np.asarray(ph2._value) - full).max() / sc), 1e-11, f"default-solver:{name}",
                          f"solvePDE with the built-in solver != with an equivalent external solver on {name}")
@@ -268,7 +304,7 @@ def check(case):
     def S(gam, cscale, old):
         Q = dict(P)
         Q['bc'] = []
-        for ent in case['bc']:
+        for ent in bc_final:
             e = dict(ent)
             for sd in ('lo', 'hi'):
                 e[sd] = dict(ent[sd], c=(np.array(ent[sd]['c'], float) * cscale).tolist())
